@@ -113,6 +113,7 @@ Definition piece_window (s : st) (chs : list chunk) (j : nat) (off len : N) : ve
   else lincomb (nth j (s_M s) []) (map (fun c => data_window (s_tracts s) c off len) chs).
 
 (* ---------- curator/reconstruct.go: reconstructChunk bookkeeping ---------- *)
+Definition zN' (z : Z) : N := Z.to_N z.
 Definition memN (x : N) (l : list N) : bool := existsb (N.eqb x) l.
 Definition memn (x : nat) (l : list nat) : bool := existsb (Nat.eqb x) l.
 
@@ -160,6 +161,15 @@ Definition rs_encode_one (n m : nat) (M : matrix) (pieces : list vec) (imap : li
                 (combine (skipn n imap) dest_nonzero))
   end.
 
+(* store.go RSEncode under ONE injected transport fault: the failing call is made iff that increment exists and,
+   for a write, iff that destination slot is written at all (index >= 0 and id <> 0) *)
+Definition fault_hits (target inc : N) (kind slot fi : Z) (written : list bool) : bool :=
+  match kind with
+  | 1%Z => zN' fi * inc <? target
+  | 2%Z => (zN' fi * inc <? target) && nth (Z.to_nat slot) written false
+  | _ => false
+  end.
+
 (* ---------- client: one tract ---------- *)
 (* error classes on the wire: 0 = NoError, 1 = ErrEOF, 2 = any other error *)
 Record tres := { r_wanted : N; r_read : N; r_err : N; r_buf : vec }.
@@ -199,9 +209,10 @@ Fixpoint find_in_stripes (t : nat) (ss : list (list chunk)) (k : nat) : option (
 Definition ts_read_count (size off len : N) : N := if size <=? off then 0 else N.min len (size - off).
 
 (* readOneTractRS + reconstructOneTract.  blank: hosts the curator reports as "" ; fail: hosts whose reads fail.
-   [fx] selects the tree: false = the code as it is (request clipped to min(len, RS.Length), finding F15),
-   true = with fixes/F15-rs-read-clip-to-tract.patch (clipped to RS.Length - thisOffset; nothing to fetch =>
-   answered locally with EOF).  run_case uses [f15_fixed] below. *)
+   [fx] selects the variant: true = the current code (since fix commit e1cfae8: request clipped to
+   RS.Length - thisOffset; nothing to fetch => answered locally with EOF); false = the code BEFORE that fix
+   (request clipped to min(len, RS.Length), finding F15), kept so that the refuted statements remain stated.
+   run_case uses [f15_fixed] below. *)
 Definition read_rs (fx : bool) (s : st) (k j : nat) (e : ext) (blank fail : list N) (o w : N) : tres :=
   let chs := nth k (s_stripes s) [] in
   let hosts := nth k (s_hosts s) [] in
@@ -294,7 +305,7 @@ Definition read_at (fx : bool) (s : st) (rs : bool) (blank fail : list N) (blob 
   let '(rd, err) := fold_results results pad_all 0 in
   (rd, err, firstn (N.to_nat rd) (flat_map r_buf results)).
 
-(* which tree run_case models: the unrepaired code (F15 is a known finding) *)
+(* which variant run_case models: the repaired code (F15 fixed in /repo by e1cfae8) *)
 Definition f15_fixed : bool := true.
 
 (* ---------- wire helpers ---------- *)
@@ -516,15 +527,27 @@ Definition step (s : st) (op : list Z) : st * list Z :=
       | None => (s, bad)
       end
   | 41%Z :: k :: off :: len :: rest =>
-      (* Store.RSEncode with an arbitrary index map, observed on one window *)
+      (* Store.RSEncode called directly, observed on one window: with an index map (reconstruction from an
+         arbitrary choice of n pieces) or without (imap empty: plain encoding), and optionally with one failing
+         CtlRead (kind 1, source slot) / CtlWrite (kind 2, destination slot) in increment [fi] of size [inc]:
+         rsEncodeOne returns that error and RSEncode returns it -- the error propagates *)
       match take_list rest with
       | Some (imap, rest') =>
           match take_list rest' with
-          | Some (nonzero, []) =>
+          | Some (nonzero, [inc; kind; slot; fi]) =>
               match nth_error (s_stripes s) (Z.to_nat k) with
               | Some chs =>
-                  match rs_encode_one (s_n s) (s_m s) (s_M s) (stripe_windows s chs (zN off) (zN len)) imap
-                                      (map (fun z => negb (Z.eqb z 0)) nonzero) with
+                  let nzb := map (fun z => negb (Z.eqb z 0)) nonzero in
+                  let dsts := match imap with [] => map (fun i => nz (s_n s + i)) (seq 0 (s_m s)) | _ => skipn (s_n s) imap end in
+                  let written := map (fun p : Z * bool => (0 <=? fst p)%Z && snd p) (combine dsts nzb) in
+                  if fault_hits (s_target s) (zN inc) kind slot fi written then (s, [2%Z]) else
+                  let wins := stripe_windows s chs (zN off) (zN len) in
+                  let res := match imap with
+                             | [] => Some (map (fun p : Z * bool => if snd p then Some (nth (Z.to_nat (fst p)) wins []) else None)
+                                               (combine dsts nzb))
+                             | _ => rs_encode_one (s_n s) (s_m s) (s_M s) wins imap nzb
+                             end in
+                  match res with
                   | Some outs => (s, 0%Z :: flat_map (fun o => match o with
                                                                | Some v => 1%Z :: map Nz v
                                                                | None => [0%Z] end) outs)
